@@ -112,7 +112,7 @@ func (cr *caseRun) noteClosures() {
 }
 
 func (cr *caseRun) after() {
-	if cr.flood {
+	if cr.flood || cr.quiet {
 		return
 	}
 	// give the server a moment to close connections it decided to close
